@@ -1,15 +1,21 @@
 #!/bin/sh
-# usage: tools/try_all_seeds.sh [tier]  - runs every stored seed through the check of its property; writes seeded/MATRIX.tsv
-tier="${1:-quick}"
+# usage: tools/try_all_seeds.sh [tier] [seed ids...]  - runs stored seeds through the check of their property.
+# Without ids: every seed, seeded/MATRIX.tsv is rewritten; with ids: those rows are replaced / appended.
+tier="${1:-quick}"; [ $# -gt 0 ] && shift
 out=/verif/seeded/MATRIX.tsv
-echo "seed	property	tier	exit	signature	wall_s" > $out
-for d in /verif/seeded/C*; do
-  s=$(basename $d); id=${s%-*}
+if [ $# -eq 0 ]; then
+  set -- $(ls -d /verif/seeded/C* | xargs -n1 basename)
+  echo "seed	property	tier	exit	signature	wall_s" > $out
+fi
+for s in "$@"; do
+  d=/verif/seeded/$s; id=${s%-*}
   t0=$(date +%s)
   r=$(/verif/tools/try_seed.sh $d/patch.diff $id $tier 2>&1)
   t1=$(date +%s)
-  ex=$(echo "$r" | sed -n 's/^exit=//p')
+  ex=$(echo "$r" | sed -n 's/^exit=//p' | head -1)
   sig=$(echo "$r" | sed -n 's/^violation signature=//p' | head -1)
+  grep -v "^$s	" $out > $out.tmp; mv $out.tmp $out
   echo "$s	$id	$tier	$ex	$sig	$((t1-t0))" >> $out
 done
+(head -1 $out; tail -n +2 $out | sort) > $out.tmp; mv $out.tmp $out
 git -C /repo status --short
